@@ -894,7 +894,7 @@ def pair_corpus(tier: str, rng: random.Random) -> list[dict]:
     gen = list(GENERATED_UFL)
     if tier == "quick":
         # (HyperElasticity alone costs as much as the rest of the quick tier: thorough only)
-        pick = rng.sample([p for p in demos if p.stem != "HyperElasticity"], 4)
+        pick = rng.sample([p for p in demos if p.stem != "HyperElasticity"], 3)
         jobs += [{"path": str(p), "scalar_type": stype(p)} for p in pick]
         jobs += [{"generated": g, "scalar_type": "float64"} for g in gen]
     else:
@@ -990,7 +990,7 @@ def c20_run(chk):
     rng = random.Random(chk.seed)
     quick = chk.tier == "quick"
     opt_model_check(chk, 3 if quick else 5)
-    cases, verdict = c20_options(chk, rng, 40 if quick else 405)
+    cases, verdict = c20_options(chk, rng, 30 if quick else 405)
     nctl = c20_option_controls(cases, verdict, rng)
     jobs = pair_corpus(chk.tier, rng)
     pcases, pverdict = c20_pairs(chk, jobs)
